@@ -54,8 +54,9 @@ var faultKinds = []string{"connection-error", "status-503", "status-500-oauth-er
 
 // fDoc is one published document.
 type fDoc struct {
-	n    int // ordinal within the history
-	keys []rotKey
+	n     int // ordinal within the history
+	keys  []rotKey
+	noise []placedNoise // entries of the document no verifier can use (noise.go); not keys of the document
 }
 
 func (d *fDoc) has(kid, name string) bool {
@@ -78,7 +79,31 @@ func (d *fDoc) String() string {
 	for _, k := range d.keys {
 		ks = append(ks, k.kid)
 	}
+	if len(d.noise) > 0 {
+		return fmt.Sprintf("doc#%d[%s; document order with the unusable entries: %s]", d.n, strings.Join(ks, " "), jwksBody(d.entries(), d.noise))
+	}
 	return fmt.Sprintf("doc#%d[%s]", d.n, strings.Join(ks, " "))
+}
+
+func (d *fDoc) entries() []ksEntry {
+	out := make([]ksEntry, len(d.keys))
+	for i, k := range d.keys {
+		out[i] = k.entry()
+	}
+	return out
+}
+
+// listedAfterNoise: is the key listed after an unusable entry of the document?
+func (d *fDoc) listedAfterNoise(kid string) bool {
+	if d == nil {
+		return false
+	}
+	for i, k := range d.keys {
+		if k.kid == kid && usableAfterNoise(d.noise, i) {
+			return true
+		}
+	}
+	return false
 }
 
 type dlEvent struct {
@@ -106,6 +131,9 @@ func (t *faultRT) publish(d *fDoc) {
 	b, err := json.Marshal(set)
 	if err != nil {
 		panic(err)
+	}
+	if len(d.noise) > 0 {
+		b = jwksBody(d.entries(), d.noise)
 	}
 	t.mu.Lock()
 	t.served, t.body = d, b
@@ -363,9 +391,17 @@ func runFaults(run *ev.Run, i int) {
 		cur = append(cur, rotPool[p])
 	}
 	docN := 0
+	nr := run.CaseRand(80, i) // document dimension (own stream): entries no verifier can use among the published keys
 	newDoc := func(ks []rotKey) *fDoc {
 		docN++
-		return &fDoc{n: docN, keys: append([]rotKey{}, ks...)}
+		d := &fDoc{n: docN, keys: append([]rotKey{}, ks...)}
+		if nr.IntN(4) == 0 {
+			d.noise = genNoise(nr, len(ks), nil)
+			if len(ks) > 0 && nr.IntN(2) == 0 {
+				d.noise[0].Before = nr.IntN(len(ks))
+			}
+		}
+		return d
 	}
 	served := newDoc(cur)
 	rt.publish(served)
@@ -535,6 +571,12 @@ func runFaults(run *ev.Run, i int) {
 			}
 			if coldFailure {
 				run.Observed("faults:accepted-after-the-first-download-ever-failed")
+			}
+			if inServed && served.listedAfterNoise(k.kid) {
+				run.Observed("jwks-unusable-entries:part-F:published-key-listed-after-one-accepted")
+				for _, n := range served.noise {
+					run.Count("unusable-jwks-entry:part-F", n.Kind+" -> published key accepted")
+				}
 			}
 			if !inServed {
 				run.Count("grey:rp-remote", "faults:legal-by-stored-document-only")
